@@ -2,12 +2,12 @@
 HOOK_COMMITS = []
 META = {
     "C13": {
-        "text": "Bounded model checking of the real snapshot writer and reader: shapes enumerated, and — for the framing — every encoded document's byte length a symbolic integer up to 1 MiB, so the solver decides whether some payload size makes SaveSnapshot succeed while LoadFromSnapshot fails (the 16-bit length prefix), and whether GetQueue can index out of range.",
+        "text": "Bounded model checking of the real snapshot writer and reader: shapes enumerated, and — for the framing — every encoded document's byte length a symbolic integer up to 1 MiB, so the solver decides whether some payload size makes SaveSnapshot succeed while LoadFromSnapshot fails (the 16-bit length prefix), and whether GetQueue can index out of range. A concurrent harness lets the log grow (local write or the join ending a replication) at any visible step of SaveSnapshot.",
         "design_ref": "DESIGN.md §2 C13",
         "note": "Trusted: gosym incl. its rope-bytes model (symbolic segment lengths, alignment queries), in-memory Unixfs. Bounds: T<=3 entries (shapes) / 2 (sizes), lengths in [2, 2^20].",
     },
     "C18": {
-        "text": "Bounded model checking of shutdown on the real code: the moment of Close is a path decision over every visible operation of a write, a replication or a load; the interpreter owns all goroutines started by the store, so 'no background activity left' and 'later operations return' are decided from the thread table at quiescence, not from time-outs. Drop/instance Close run on a real orbitDB instance over a disk model.",
+        "text": "Bounded model checking of shutdown on the real code: the moment of Close is a path decision over every visible operation of a write, a replication or a load; the interpreter owns all goroutines started by the store, so 'no background activity left' and 'later operations return' are decided from the thread table at quiescence, not from time-outs. Drop/instance Close run on a real orbitDB instance over a disk model. At instance level the whole orbitDB instance (or one store) is closed at any visible step of a cross-instance replication or write, optionally after the context it was created with was cancelled; and a store is closed while a Load is stuck on an unavailable block.",
         "design_ref": "DESIGN.md §2 C18",
         "note": "Trusted: gosym thread model, stub bus/pubsub contracts (stated). Bounds: one Close moment per path, <= 2 repeats, one later operation; 2 databases for Drop.",
     },
@@ -17,17 +17,17 @@ META = {
         "note": "Trusted: perfect hashing, idealised CBOR driven by the registered atlases, disk model. Bounds: names <= 2 bytes quick / 4 thorough (injectivity 1 / 2), 3 store types, <= 3 writers.",
     },
     "C02": {
-        "text": "Bounded model checking of a two-replica closed system executing the real write, announce, exchange-heads, Sync, replicator, Join and Load code: every fault plan of lost announcements and one restart within STEPS steps is explored (payloads symbolic), then the heal phase runs and both logs are compared.",
+        "text": "Bounded model checking of a two-replica closed system executing the real write, announce, exchange-heads, Sync, replicator, Join and Load code: every fault plan of lost announcements and one restart within STEPS steps is explored (payloads symbolic), then the heal phase runs and both logs are compared. A second, instance-level harness runs 2-3 REAL orbitDB instances (newOrbitDB, Create/Open, monitorDirectChannel, handleEventExchangeHeads, store listeners) over a simulated network with link cuts, lost / duplicated announcements, restarts over the same directory and restarts that lose an in-memory cache.",
         "design_ref": "DESIGN.md §2 C02",
         "note": "Trusted: gosym thread model, stub network (announcement delivery decided by the harness), perfect hashing. Bounds: 2 replicas, STEPS<=4 quick / 6 thorough, one restart kind.",
     },
     "C03": {
-        "text": "Bounded model checking under a Dolev-Yao attacker: every combination of forged author fields is built with the real ipfs-log and delivered by both routes to a replica running the real Sync/replicator/Join/Verify/CanAppend code; plus symbolic-list unit checks of all three controllers. One class is a listed known finding (writer's id named in an entry signed by someone else); its complement is verified.",
+        "text": "Bounded model checking under a Dolev-Yao attacker: every combination of forged author fields is built with the real ipfs-log and delivered by both routes to a replica running the real Sync/replicator/Join/Verify/CanAppend code; plus symbolic-list unit checks of all three controllers. One class is a listed known finding (writer's id named in an entry signed by someone else); its complement is verified. An instance-level harness checks that each database of one orbitDB instance enforces its OWN write list (ipfs / manifest-less simple controllers resolved by createStore, non-writer entries by sync, direct channel and topic).",
         "design_ref": "DESIGN.md §2 C03, §4",
         "note": "Trusted: perfect symbolic cryptography, gosym. Known finding C03-id-not-bound-to-key is reported (KNOWN-FINDING line) and carved out.",
     },
     "C04": {
-        "text": "Bounded model checking of the hash check in Sync, the replicator's fetch-by-hash and Join's log-id / signature verification: every single-field mutation (new clock time fully symbolic), with or without re-addressing, by both routes; the tampered entry must be absent at quiescence, held entries intact, and the original still acceptable.",
+        "text": "Bounded model checking of the hash check in Sync, the replicator's fetch-by-hash and Join's log-id / signature verification: every single-field mutation (new clock time fully symbolic), with or without re-addressing, by both routes; the tampered entry must be absent at quiescence, held entries intact, and the original still acceptable. A further harness links a valid entry to a chain of entries validly written for another database and checks, after replication, after restart + load (whole ancestry fetched as one log) and on a relayed replica, that nothing with a foreign log id is listed, a head, or served.",
         "design_ref": "DESIGN.md §2 C04",
         "note": "Trusted: perfect hashing/signatures, gosym. Bounds: one tampered entry, 9 field selectors x re-address x route.",
     },
@@ -42,27 +42,27 @@ META = {
         "note": "Trusted: gosym thread model, stub block store with fault injection at fetches. Known finding C11-partial-ancestry is reported (KNOWN-FINDING line) and carved out.",
     },
     "C09": {
-        "text": "Bounded model checking of the real listeners and main loops of two stores sharing one bus: every action sequence on one database (symbolic payloads) is executed on the real InitBaseStore/storeListener/replicator/main-loop code and the other database's topic, log, status and the addresses on all emitted events are checked at quiescence.",
+        "text": "Bounded model checking of the real listeners and main loops of two stores sharing one bus: every action sequence on one database (symbolic payloads) is executed on the real InitBaseStore/storeListener/replicator/main-loop code and the other database's topic, log, status and the addresses on all emitted events are checked at quiescence. At instance level two real orbitDB instances hold the same two databases; head exchanges for both travel back to back over one direct channel and replicate concurrently on the shared bus; contents, status, events and every wire message are checked per database.",
         "design_ref": "DESIGN.md §2 C09",
         "note": "Trusted: gosym, stub bus/pubsub/direct channel. Bounds: 2 databases, STEPS<=3 quick / 4 thorough.",
     },
     "C05": {
-        "text": "Bounded model checking with the crash point as a solver variable: the real write and replication paths run over a disk that logs every persistence effect in order, acknowledgement instants are recorded, the crash index is a symbolic integer over all prefixes of the effect log, and the real Load runs on the recovered prefix; the solver shows every acknowledged entry is recovered, nothing unwritten appears, the log is ancestry-closed and the view matches.",
+        "text": "Bounded model checking with the crash point as a solver variable: the real write and replication paths run over a disk that logs every persistence effect in order, acknowledgement instants are recorded, the crash index is a symbolic integer over all prefixes of the effect log, and the real Load runs on the recovered prefix; the solver shows every acknowledged entry is recovered, nothing unwritten appears, the log is ancestry-closed and the view matches. At instance level: clean close / reopen cycles by address and by name (Create with Overwrite) incl. reopen attempts that fail, and identity persistence through the public NewOrbitDB (real keystore and CreateIdentity over symbolic keys and a disk model with leveldb's directory lock).",
         "design_ref": "DESIGN.md §2 C05",
         "note": "Trusted: gosym, z3, the effect-log disk model (each effect durable on return). Bounds: STEPS<=3 quick / 4 thorough, one local and one remote writer.",
     },
     "C16": {
-        "text": "Bounded model checking of the state-before-event clause on the real write and replication paths: emissions are intercepted synchronously and the real log/index/cache are queried at that instant, over every bounded history. The legacy channel emitter's two buffering goroutines are executed under every thread schedule within the preemption bound and the received sequence is compared with the emitted one. The real eventbus is outside (stated).",
+        "text": "Bounded model checking of the state-before-event clause on the real write and replication paths: emissions are intercepted synchronously and the real log/index/cache are queried at that instant, over every bounded history. The legacy channel emitter's two buffering goroutines are executed under every thread schedule within the preemption bound and the received sequence is compared with the emitted one. The real eventbus is outside (stated). Every emitted replicated event is also retained and read at the end of the history (slow subscriber): it must still announce its own batch, and each merged remote entry is announced exactly once.",
         "design_ref": "DESIGN.md §2 C16",
         "note": "Clause (a) and clause (c) (legacy emitter: N=18 events, every schedule with <= 2 preemptions; stalled subscriber with 200 events). Clause (b), the real libp2p eventbus, is outside. Bounds as stated.",
     },
     "C01": {
-        "text": "Bounded model checking of the whole replication pipeline on the real code: two writer stores and a fresh replica run the real AddOperation, Sync, replicator, ipfs-log fetcher, Join and index code inside the interpreter; the history shape is enumerated, keys/values are symbolic, and the solver shows that all replicas holding the same entries list them in the same order and expose the same view, equal to the replay of the log.",
+        "text": "Bounded model checking of the whole replication pipeline on the real code: two writer stores and a fresh replica run the real AddOperation, Sync, replicator, ipfs-log fetcher, Join and index code inside the interpreter; the history shape is enumerated, keys/values are symbolic, and the solver shows that all replicas holding the same entries list them in the same order and expose the same view, equal to the replay of the log. The third replica receives the entries by one of five routes, including a partial load from disk (limit) completed by the heads a lagging peer announces.",
         "design_ref": "DESIGN.md §2 C01",
         "note": "Trusted: gosym (incl. its cooperative thread model with run-to-block scheduling), z3, block-store/bus/cache stubs, idealised JSON, perfect hashing/signatures. Bounds: 2 writers + 1 reader, STEPS<=3 quick / 4-5 thorough.",
     },
     "C15": {
-        "text": "Bounded model checking of the real Load path (cache heads -> ipfs-log fetcher -> Join with size trimming -> index) with the limit a full 64-bit symbolic integer: the solver partitions the limit's range at every comparison in the real code and shows, per class, no panic, no error and exactly min(n,total) most recent entries in log order.",
+        "text": "Bounded model checking of the real Load path (cache heads -> ipfs-log fetcher -> Join with size trimming -> index) with the limit a full 64-bit symbolic integer: the solver partitions the limit's range at every comparison in the real code and shows, per class, no panic, no error and exactly min(n,total) most recent entries in log order. With several cached heads the per-head goroutines of Load are explored under every schedule within the preemption bound.",
         "design_ref": "DESIGN.md §2 C15",
         "note": "Trusted: gosym, z3, block-store/cache stubs. Bounds: logs of T<=3 quick / 5 thorough entries, one or two heads.",
     },
@@ -72,12 +72,12 @@ META = {
         "note": "Trusted: gosym's thread model (sequentially consistent at visible-operation granularity), stub cache/block store. Bounds: W=2,P=1 quick / W=3,P=2 thorough. The deciding step is exhaustive enumeration of schedules within the bound, each closed by solver verdicts over the symbolic payloads.",
     },
     "C20": {
-        "text": "Bounded model checking of the real adapter code: peersDiff over all membership-snapshot sequences with symbolic peer ids, the self-filter and ordering of WatchMessages/monitorTopic over scripted messages with symbolic bodies, channel-name symmetry/injectivity over symbolic ids, and the varint frame round trip plus arbitrary raw frames.",
+        "text": "Bounded model checking of the real adapter code: peersDiff over all membership-snapshot sequences with symbolic peer ids, the self-filter and ordering of WatchMessages/monitorTopic over scripted messages with symbolic bodies, channel-name symmetry/injectivity over symbolic ids, and the varint frame round trip plus arbitrary raw frames. The pubsubraw adapter runs over scripted stand-ins for libp2p-pubsub's concrete Topic / Subscription / TopicEventHandler (methods replaced by name under the interpreter).",
         "design_ref": "DESIGN.md §2 C20",
         "note": "Trusted: gosym, z3, scripted coreiface PubSub stub. Bounds: 3 peers x 3/4 snapshots, 3/5 messages, ids <= 2/3 bytes, payloads <= 3/6 bytes, raw frames <= 11/12 bytes.",
     },
     "C12": {
-        "text": "Bounded model checking of the real message-handling code with the input fully symbolic: raw stream frames as arbitrary byte strings (every varint / declared length), decoded head messages with every field independently nil/empty/present. Any feasible panic path is a counterexample the solver instantiates.",
+        "text": "Bounded model checking of the real message-handling code with the input fully symbolic: raw stream frames as arbitrary byte strings (every varint / declared length), decoded head messages with every field independently nil/empty/present. Any feasible panic path is a counterexample the solver instantiates. At instance level the real monitorDirectChannel / handleEventExchangeHeads / topic listeners receive undecodable, ill-typed, mis-addressed and malformed-head payloads, alone or in one burst with honest traffic; allocations sized by a frame's length prefix are solver-checked against the frame limit.",
         "design_ref": "DESIGN.md §2 C12",
         "note": "Trusted: gosym, z3; encoding/json is over-approximated by 'error or any value of the message type' for head messages. Bounds: frames <= 11/12 bytes, <= 2 heads.",
     },
@@ -92,12 +92,12 @@ META = {
         "note": "Trusted: gosym, z3, idealised JSON, ASCII-exact ToLower stand-in. Bounds: N<=2/3 ops, M<=2/3 documents, keys <=1/2 bytes printable ASCII without space.",
     },
     "C08": {
-        "text": "Bounded model checking of the real query/read window code with the amount a full 64-bit symbolic integer and every bound kind/position: the solver shows the returned slice is exactly the specified contiguous window and the listing is not disturbed.",
+        "text": "Bounded model checking of the real query/read window code with the amount a full 64-bit symbolic integer and every bound kind/position: the solver shows the returned slice is exactly the specified contiguous window and the listing is not disturbed. The window harness drives the public List / Stream / Get as well as the internal query, twice, for listings of 0..N entries.",
         "design_ref": "DESIGN.md §2 C08",
         "note": "Trusted: gosym, z3. Bounds: listing length N<=4 quick / 6 thorough. The order-stability clause over merge histories is decided by the C01 harnesses (real ipfs-log), see DESIGN.",
     },
     "C19": {
-        "text": "Bounded model checking of the real update functions: one inductive step from an ARBITRARY valid pre-state (progress, max, log length, argument all 64-bit symbolic) — the solver shows max'>=max, progress'>=progress, progress'<=max' and the at-rest equality for every value below 2^62, which covers histories of any length because the invariant is inductive.",
+        "text": "Bounded model checking of the real update functions: one inductive step from an ARBITRARY valid pre-state (progress, max, log length, argument all 64-bit symbolic) — the solver shows max'>=max, progress'>=progress, progress'<=max' and the at-rest equality for every value below 2^62, which covers histories of any length because the invariant is inductive. The history harness includes SaveSnapshot / LoadFromSnapshot steps and a fresh store loaded from the snapshot (this found the LoadFromSnapshot progress defect fixed in 36187f9); a two-database instance-level harness checks the at-rest clause per database.",
         "design_ref": "DESIGN.md §2 C19",
         "note": "Trusted: gosym's SSA semantics (validated per run by native replay of sampled paths), z3. Assumes every status update goes through recalculateReplicationMax/Status (checked by reading; the harness drives exactly those). Bounds: values < 2^62.",
     },
